@@ -15,10 +15,13 @@ import (
 // header-writing sites (store to the field, Grow on it) and of all reading sites and requires
 // (L7.write) that the writers hold a common exclusive lock and (L7.read) that every reader holds
 // that lock too.
-func ruleL7(r *Report) {
+func ruleL7(r *Report) { ruleL7sel(r, nil, true) }
+
+// ruleL7sel: sel restricts the fields; withRead=false emits only the writer-side obligations.
+func ruleL7sel(r *Report, sel func(field string) bool, withRead bool) {
 	L := r.Shared.Lockset()
-	hw := r.Rule("L7.write", "L", "every site that replaces the header of cross-block column state (chunks slice, whole-collection bitmap, enum table) holds a common exclusive lock", 4)
-	hr := r.Rule("L7.read", "L", "every reader of cross-block column state holds the lock under which that state's header is replaced (the block latch does not order accesses of different blocks)", 4)
+	hw := r.Rule("L7.write", "L", "every site that replaces the header of cross-block column state (chunks slice, whole-collection bitmap, enum table) holds a common exclusive lock", 1)
+	hr := r.Rule("L7.read", "L", "every reader of cross-block column state holds the lock under which that state's header is replaced (the block latch does not order accesses of different blocks)", 0)
 	type site struct {
 		ins  ssa.Instruction
 		s    *LSite
@@ -81,6 +84,9 @@ func ruleL7(r *Report) {
 	}
 	sort.Strings(names)
 	for _, n := range names {
+		if sel != nil && !sel(n) {
+			continue
+		}
 		a := fields[n]
 		if len(a.writes) == 0 {
 			hw.OK(n, "-", "never replaced after construction")
@@ -119,6 +125,9 @@ func ruleL7(r *Report) {
 			continue
 		}
 		hw.OK(n, r.P.InstrPos(a.writes[0].ins), fmt.Sprintf("%d writing contexts hold {%s}", len(a.writes), common.key()))
+		if !withRead {
+			continue
+		}
 		// readers
 		var bad *site
 		nread := 0
